@@ -257,13 +257,16 @@ theorem condense_mass_k (E : Env) (a n : Annotation) (p : ℕ) (hiso : a.isotope
   simpa using hb
 
 /-- **mass preserved with an isotope label in force** (labels expanded per residue, the terminal H / OH shift written once on
-the termini): in a coherent environment the mass of the output differs from the mass of the labelled input by at most
-½·10⁻ᵖ per number written plus 10⁻⁶ per nonzero quantity below the cut-off (residue totals, the two terminal label shifts). -/
+the termini): in a table-coherent environment the mass of the output differs from the mass of the labelled input by at most
+½·10⁻ᵖ per number written, plus 10⁻⁶ per nonzero quantity below the cut-off (residue totals, the two terminal label shifts),
+plus the `slack`: the total discrepancy between the tabulated masses (`mod_mass`) and the composition masses of the
+modifications written outside residue positions — the labelled input is weighed through compositions, the sums written for
+termini / labile / unknown-position / interval modifications through `mod_mass`. -/
 theorem condense_mass_label (E : Env) (hc : Coherent E) (a n : Annotation) (p : ℕ) (m0 : Mod) (L : List Mod) (lm : LabelMap)
     (hiso : a.isotope = some (m0 :: L)) (hl : parseIsotopeMods E.knownLabel (m0 :: L) = .ok lm) (hr : InRange a)
     (hn : ∀ i : ℤ, E.mu (.int i) = i) (h : condenseToMassAnn E a p = .ok n) :
     ∃ c s x, condenseStatic a = .ok c ∧ shiftsOf E c p = .ok s ∧ n = render c s p ∧ massOf E a = .ok x ∧
-      |outMass E c s p - x| ≤ (writtenL c s : ℚ) * halfUlp p + (droppedL E lm c : ℚ) * threshold := by
+      |outMass E c s p - x| ≤ (writtenL c s : ℚ) * halfUlp p + (droppedL E lm c : ℚ) * threshold + slack E c := by
   obtain ⟨c, s, hcd, hs, hn'⟩ := condenseToMassAnn_eq E a n p h
   have hciso : c.isotope = some (m0 :: L) := by
     have := condenseStatic_isotope a c (some (m0 :: L)) hcd
@@ -282,6 +285,35 @@ theorem condense_mass_label (E : Env) (hc : Coherent E) (a n : Annotation) (p : 
     rw [h1, ← h3, ← h2]; exact hx
   exact ⟨c, s, x, hcd, hs, hn', hxa, hb⟩
 
+/-- **the ~1e-6 slack for named modifications, explicit**: if every modification written outside a residue position has a
+tabulated mass within `δ` of the mass of its composition (a hypothesis on the RESOLVED masses, C03 / C10's subject; on
+/repo δ ≈ 1e-6 for Unimod / PSI-MOD names), the bound is `k·½·10⁻ᵖ + z·10⁻⁶ + j·δ` with `j` the number of such modifications -/
+theorem condense_mass_label_delta (E : Env) (hc : Coherent E) (a n : Annotation) (p : ℕ) (m0 : Mod) (L : List Mod)
+    (lm : LabelMap) (δ : ℚ)
+    (hiso : a.isotope = some (m0 :: L)) (hl : parseIsotopeMods E.knownLabel (m0 :: L) = .ok lm) (hr : InRange a)
+    (hn : ∀ i : ℤ, E.mu (.int i) = i) (h : condenseToMassAnn E a p = .ok n)
+    (hδ : ∀ c, condenseStatic a = .ok c → ∀ m ∈ outsideMods c, |modMass E m - modMass (envC E) m| ≤ δ) :
+    ∃ c s x, condenseStatic a = .ok c ∧ shiftsOf E c p = .ok s ∧ n = render c s p ∧ massOf E a = .ok x ∧
+      |outMass E c s p - x| ≤ (writtenL c s : ℚ) * halfUlp p + (droppedL E lm c : ℚ) * threshold +
+        δ * ((outsideMods c).length : ℚ) := by
+  obtain ⟨c, s, x, hcd, hs, hn', hx, hb⟩ := condense_mass_label E hc a n p m0 L lm hiso hl hr hn h
+  refine ⟨c, s, x, hcd, hs, hn', hx, ?_⟩
+  have := slack_le E c δ (hδ c hcd)
+  linarith
+
+/-- when the tabulated modification masses ARE the composition masses (the two calculators agree exactly) there is no slack -/
+theorem condense_mass_label_exact (E : Env) (hc : Coherent E) (a n : Annotation) (p : ℕ) (m0 : Mod) (L : List Mod)
+    (lm : LabelMap)
+    (hiso : a.isotope = some (m0 :: L)) (hl : parseIsotopeMods E.knownLabel (m0 :: L) = .ok lm) (hr : InRange a)
+    (hn : ∀ i : ℤ, E.mu (.int i) = i) (h : condenseToMassAnn E a p = .ok n)
+    (hm : ∀ m : Mod, modMass E m = modMass (envC E) m) :
+    ∃ c s x, condenseStatic a = .ok c ∧ shiftsOf E c p = .ok s ∧ n = render c s p ∧ massOf E a = .ok x ∧
+      |outMass E c s p - x| ≤ (writtenL c s : ℚ) * halfUlp p + (droppedL E lm c : ℚ) * threshold := by
+  obtain ⟨c, s, x, hcd, hs, hn', hx, hb⟩ := condense_mass_label E hc a n p m0 L lm hiso hl hr hn h
+  refine ⟨c, s, x, hcd, hs, hn', hx, ?_⟩
+  rw [slack_zero E c hm] at hb
+  simpa using hb
+
 /-- a coherent environment exists (so `condense_mass_label` is not vacuous): one residue type `C2` weighing 2·50, water
 `H2O` = H + OH weighing 18, integer modifications as plain shifts, every named modification as one carbon -/
 def exCoh : Env :=
@@ -294,14 +326,8 @@ def exCoh : Env :=
     ntermComp := [(['H'], 1)], ctermComp := [(['O'], 1), (['H'], 1)] }
 
 theorem exCoh_coherent : Coherent exCoh := by
-  refine ⟨fun _ => by simp [exCoh, chemMass]; norm_num, by simp [exCoh, chemMass]; norm_num, ?_, ?_, fun _ => by simp [exCoh, NodupKeys],
-    by simp [exCoh, NodupKeys], by simp [exCoh, NodupKeys], by simp [exCoh, NodupKeys], by simp [exCoh, NodupKeys], rfl, rfl, rfl, ?_⟩
-  · intro m
-    obtain ⟨v, k⟩ := m
-    cases v with
-    | int i => simp [modMass, compOf, deltaOf, exCoh, chemMass]
-    | flt r => simp [modMass, compOf, deltaOf, exCoh, chemMass]
-    | str r => simp [modMass, compOf, deltaOf, exCoh, chemMass, compScale]; ring
+  refine ⟨fun _ => by simp [exCoh, chemMass]; norm_num, by simp [exCoh, chemMass]; norm_num, ?_, fun _ => by simp [exCoh, NodupKeys],
+    by simp [exCoh, NodupKeys], by simp [exCoh, NodupKeys], by simp [exCoh, NodupKeys], by simp [exCoh, NodupKeys], rfl, rfl, rfl, ?_, rfl⟩
   · intro x
     simp only [exCoh, compGet]
     by_cases h1 : ['H'] = x
@@ -312,6 +338,15 @@ theorem exCoh_coherent : Coherent exCoh := by
   · intro m
     obtain ⟨v, k⟩ := m
     cases v <;> simp [isBad, exCoh]
+
+/-- in `exCoh` the tabulated modification masses are exactly the composition masses -/
+theorem exCoh_exact : ∀ m : Mod, modMass exCoh m = modMass (envC exCoh) m := by
+  intro m
+  obtain ⟨v, k⟩ := m
+  cases v with
+  | int i => simp [modMass, envC, exCoh]
+  | flt r => simp [modMass, envC, exCoh]
+  | str r => simp [modMass, envC, exCoh, chemMass]
 
 /-- `<18O>[10]-PP[Acetyl]` in `exCoh` at precision 2: the residues have no O, the C-terminal OH gets +2, `[10]-` stays an int -/
 def exLab : Annotation :=
